@@ -147,7 +147,10 @@ func NewReverseSuffixSearcher(
 		pikevm:         pikevm,
 		suffixLen:      suffixLen,
 		suffixBytes:    suffixBytes,
-		matchStartZero: matchStartZero,
+		// The .*literal shortcut works line by line (it cuts the line at the next
+		// '\n' after the candidate); a literal that itself contains '\n' would be
+		// cut in half, so such patterns take the general path.
+		matchStartZero: matchStartZero && bytes.IndexByte(suffixBytes, '\n') < 0,
 	}
 	s.fwdCachePool = sync.Pool{
 		New: func() any { return s.forwardDFA.NewCache() },
